@@ -234,6 +234,146 @@ def rule_A(ck, name, f):
     return k
 
 
+def counter_decl(f):
+    """the local returned as first tuple element at every non-literal return, else None"""
+    ks = set()
+    for r in f.returns():
+        tup = ir.tuple_node(r['e'])
+        if tup is None:
+            return None
+        a0 = unwrap(tup['a'][0])
+        if a0['k'] == 'ref':
+            ks.add(a0['d'])
+        elif not (a0['k'] == 'lit' and a0['v'] == '0'):
+            return None
+    return next(iter(ks)) if len(ks) == 1 else None
+
+# loops whose iterations are counted in bulk by the enclosing loop (reason per entry)
+BULK_COUNTED = {
+    # bicgstabl: the BiCG part runs j = 0..L-1 and the enclosing iteration adds L (`iter += L`), the early exit inside it adds j+1
+    'bicgstabl': 'L',
+}
+
+
+def rule_counted(ck, name, f, k):
+    """A2: every CFG cycle through an application of the system matrix (backend::spmv(., A, ...), preconditioner::spmv(side, P, A, ...);
+    for a method without one: backend::residual(rhs, A, x, .)) passes through a modification of the returned counter."""
+    key = 'amgcl::solver::' + name
+    cfg = f.cfg
+    loc = locate(f)
+    al = alias_roots(f)
+    A_root = ('param', 0)
+
+    def is_A(e):
+        return root_key(f, e, al) == A_root
+    spmvs, resids = [], []
+    for n in f.nodes.values():
+        if n['k'] != 'call' or n['i'] not in loc:
+            continue
+        if any(a['k'] == 'lambda' for a in f.ancestors(n)):
+            continue
+        pr = prim_name(n)
+        args = n.get('a', [])
+        if pr == 'spmv' and len(args) > 1 and is_A(args[1]):
+            spmvs.append(n)
+        elif n.get('f') == 'amgcl::preconditioner::spmv' and len(args) == 6 and is_A(args[2]):
+            spmvs.append(n)
+        elif pr == 'residual' and len(args) > 1 and is_A(args[1]):
+            resids.append(n)
+    events = spmvs or resids
+    modpos = {}
+    for n, _ in modifications(f, k):
+        if n['i'] in loc:
+            b, p = loc[n['i']]
+            modpos.setdefault(b, []).append(p)
+    # bulk-counted loops `for (j ...; j < L; ...)`: accepted only when an enclosing loop's increment adds the same bound to the counter
+    bulk = BULK_COUNTED.get(name)
+    bulk_loops = []
+    if bulk:
+        for n in f.nodes.values():
+            if n['k'] != 'for' or n.get('c') is None:
+                continue
+            c = unwrap(n['c'])
+            if not (c['k'] == 'bin' and c['op'] == '<' and show(unwrap(c['y'])) in (bulk, 'prm.' + bulk)):
+                continue
+            for a_ in f.ancestors(n):
+                iu = unwrap(a_['inc']) if a_['k'] == 'for' and a_.get('inc') is not None else None
+                if iu is not None and iu['k'] == 'bin' and iu['op'] == '+=' and unwrap(iu['x'])['k'] == 'ref' and unwrap(iu['x'])['d'] == k \
+                        and show(unwrap(iu['y'])) in (bulk, 'prm.' + bulk):
+                    bulk_loops.append({loc[x['i']][0] for x in walk(n) if x['i'] in loc})
+                    break
+    bad = []
+    n_cycles = 0
+    for ev in events:
+        B, P = loc[ev['i']]
+        in_loop = False
+        # search: from just after (B, P) along CFG edges; a block with a counter modification ends the path
+        seen = set()
+        stack = []
+        later = [p for p in modpos.get(B, []) if p > P]
+        if not later:
+            stack.extend(s for s in cfg.succ[B] if s is not None)
+        found = None
+        parent = {}
+        while stack:
+            b = stack.pop()
+            if b == B:
+                if not [p for p in modpos.get(B, []) if p <= P]:
+                    found = True
+                    break
+                continue
+            if b in seen:
+                continue
+            seen.add(b)
+            if modpos.get(b):
+                continue
+            for s in cfg.succ[b]:
+                if s is not None:
+                    stack.append(s)
+        # is the event in a cycle at all?
+        reach = set()
+        st2 = [s for s in cfg.succ[B] if s is not None]
+        while st2:
+            b = st2.pop()
+            if b in reach:
+                continue
+            reach.add(b)
+            st2.extend(s for s in cfg.succ[b] if s is not None)
+        in_loop = B in reach
+        if in_loop:
+            n_cycles += 1
+        inside = [bl for bl in bulk_loops if B in bl]
+        if found and inside:
+            # counted in bulk: only a cycle that leaves the bulk loop and comes back uncounted is a violation
+            found = _cycle_outside_bulk(cfg, modpos, min(inside, key=len))
+        if found:
+            bad.append('%s at %s can be executed again without `%s` having been modified' % (show(ev)[:60], f.where(ev), f.decl(k)['n']))
+    ok = not bad and n_cycles > 0
+    ck.ob('A2.work-counted', key, f.where(), ok, '; '.join(bad[:3]) if bad else ('' if n_cycles else 'no application of A inside a loop found'))
+
+
+def _cycle_outside_bulk(cfg, modpos, ev_for):
+    """for an event inside a bulk-counted loop (blocks ev_for): is there an uncounted cycle that leaves the bulk loop and re-enters it?"""
+    # leave the bulk loop, then look for a way back to B avoiding counter modifications
+    seen = set()
+    stack = []
+    for b in ev_for:
+        for s in cfg.succ[b]:
+            if s is not None and s not in ev_for:
+                stack.append(s)
+    while stack:
+        b = stack.pop()
+        if b in seen:
+            continue
+        seen.add(b)
+        if b in ev_for:
+            return True
+        if modpos.get(b):
+            continue
+        stack.extend(s for s in cfg.succ[b] if s is not None)
+    return False
+
+
 def alias_roots(f):
     """local reference variables bound to a member vector: decl -> root key"""
     m = {}
@@ -646,6 +786,8 @@ def main(tier):
     ck.add_units(units, specs)
     ck.rule('A.budget', 'every modification of the returned iteration counter is dominated by counter < prm.maxiter established since its previous modification, '
                         'with step 1 (L, or j+1 under j < L, for bicgstabl): iterations <= maxiter (+ L - 1)', 8)
+    ck.rule('A2.work-counted', 'every CFG cycle through an application of the system matrix A (spmv; residual for Richardson) contains a modification of the returned '
+                                 'iteration counter, so the count bounds the work (bicgstabl: the j < L loop is counted in bulk by `iter += L` of the enclosing loop)', 8)
     ck.rule('B1.report-form', 'the reported value is R / N with N = norm(rhs); the zero-rhs exit reports norm_rhs, a converged-guess exit reports R / N', 8)
     ck.rule('B2.tested-is-reported', 'R is the variable the convergence test compares with eps = max(tol * N, abstol)', 8)
     ck.rule('B3.fresh', 'at every return, no update of the solution accumulator happened after the last R = norm(.)', 8)
@@ -657,6 +799,7 @@ def main(tier):
         seen.add(name)
         k = rule_A(ck, name, f)
         if k is not None:
+            rule_counted(ck, name, f, k)
             rule_B(ck, name, f, k)
         if name in LOCKSTEP:
             rule_lockstep(ck, name, f)
